@@ -474,6 +474,23 @@ func OracleC12(w *World, h *History) {
 		if o.OKFlag && !some {
 			w.AddViolation("C12", "waitforready-wrong", fmt.Sprintf("WaitForReady on pool %s returned nil in (#%d,#%d) although no matching reverse tunnel was open at any instant of the call", o.Pool, o.Inv, o.Ret), map[string]string{"pool": o.Pool, "got": "ready"}, o.Ret)
 		}
+		if !o.OKFlag && !throughout {
+			// Timed out although a matching tunnel had become ready at an
+			// earlier virtual instant and stayed open: between the two instants
+			// everything was idle (virtual time only advances then), with the
+			// pool ready and the waiter still blocked - a lost wake-up.
+			tRet := timeOfSeq(h, o.Ret)
+			for _, rt := range rg.tunnels {
+				if o.Pool != "*" && poolOf(rt.key) != o.Pool {
+					continue
+				}
+				if rt.cbOpen != 0 && rt.cbOpen < o.Ret && (rt.endCause == 0 || rt.endCause > o.Ret) && timeOfSeq(h, rt.cbOpen) < tRet {
+					w.AddViolation("C12", "waitforready-wrong", fmt.Sprintf("WaitForReady on pool %s (#%d) timed out at #%d (virtual %v) although tunnel %d had been ready since #%d (virtual %v) and stayed open: the waiter was not woken", o.Pool, o.Inv, o.Ret, tRet, rt.idx, rt.cbOpen, timeOfSeq(h, rt.cbOpen)),
+						map[string]string{"pool": o.Pool, "got": "timeout-though-ready-earlier"}, o.Ret)
+					break
+				}
+			}
+		}
 		if !o.OKFlag && throughout {
 			w.AddViolation("C12", "waitforready-wrong", fmt.Sprintf("WaitForReady on pool %s timed out in (#%d,#%d) although a matching reverse tunnel was open during the whole call", o.Pool, o.Inv, o.Ret), map[string]string{"pool": o.Pool, "got": "timeout"}, o.Ret)
 		}
@@ -622,4 +639,21 @@ func errOf(s string) error {
 		return nil
 	}
 	return strErr(s)
+}
+
+// timeOfSeq returns the virtual time of the event with the given sequence number.
+func timeOfSeq(h *History, seq int64) time.Duration {
+	lo, hi := 0, len(h.Evs)
+	for lo < hi {
+		m := (lo + hi) / 2
+		if h.Evs[m].Seq < seq {
+			lo = m + 1
+		} else {
+			hi = m
+		}
+	}
+	if lo < len(h.Evs) {
+		return h.Evs[lo].T
+	}
+	return 0
 }
